@@ -78,8 +78,10 @@ func (h *RegisteredHook) Cancel() error {
 		return err
 	}
 
+	verifEvent("hookcancel:enter", h)
 	c.hooksLock.Lock()
 	defer c.hooksLock.Unlock()
+	verifEvent("hookcancel:locked", h)
 
 	for key, hook := range c.hooks {
 		if hook.q == h.q {
